@@ -1,4 +1,60 @@
-From Dawn Require Import Build.Model.
-Theorem build_total_C03 : forall c w l, exists o, build c w l = o.
-Proof. intros; eexists; reflexivity. Qed.
-Print Assumptions build_total_C03.
+(** C03 — Failed and interrupted builds are recoverable.  Statements only.
+    A killed build is a build whose configuration has [c_crashed = true] together with ANY sets [c_ran] (function bodies
+    that ran) and [c_recorded] (records renamed into place): the model cuts every target that is not in them, so the
+    theorems below quantify over every crash point of every schedule, not over a sequential prefix. *)
+From Dawn Require Import Build.Model Build.Proofs Build.Proofs_Fresh Build.Proofs_Stale.
+
+(** Whatever happened before -- including failed and killed builds at arbitrary points -- the persisted records never lie:
+    a success record is exactly the snapshot of an execution that was recorded. *)
+Theorem crash_preserves_record_truth :
+  forall h l r e, let w := run_history h in
+    lookup l (w_recs w) = Some r -> r_data r = DEnv e ->
+    lookup l (w_last w) = Some (mkSnap e (r_run r) (r_deps r)).
+Proof. intros h l r e. exact (Proofs_Stale.history_ginv h l r e). Qed.
+Print Assumptions crash_preserves_record_truth.
+
+(** ... hence the build after a failed or killed one (or after any history containing such builds), if it succeeds,
+    leaves the whole closure current: no target that did not complete against its current inputs is remembered as up to
+    date. *)
+Theorem recovery_is_never_stale :
+  forall h c l,
+    let w := run_history h in
+    c_dry c = false -> c_crashed c = false -> link_ok (w_proj w) = true ->
+    let o := build c w l in
+    (forall x v, lookup x (o_vis o) = Some v -> v_res v = ROk) ->
+    forall x v, lookup x (o_vis o) = Some v -> current (o_w o) x.
+Proof. exact Proofs_Stale.never_stale. Qed.
+Print Assumptions recovery_is_never_stale.
+
+(** A failed body leaves a record that is marked for re-run and carries no stamp: the next build executes it. *)
+Theorem failed_body_reruns :
+  forall c w l deps srcs gens env k alw vs w' v evs ran,
+    c_crashed c = false -> c_dry c = false -> mem l (c_fail c) = true ->
+    step_target c w l (Fn deps srcs gens env k alw) (rec_of w l) vs = (w', v, evs, ran) ->
+    ran = true ->
+    r_rerun (rec_of w' l) = true /\ r_data (rec_of w' l) = DEmpty /\ v_res v = RFailBody.
+Proof.
+  intros c w l deps srcs gens env k alw vs w' v evs ran Hcr Hdry Hfail.
+  unfold step_target. rewrite Hcr, Hdry, Hfail. cbn [andb].
+  destruct (first_failure vs) as [[]|]; try (intros H; inversion H; discriminate).
+  destruct (negb (c_always c) && deps_up_to_date (rec_of w l) vs &&
+            up_to_date w (Fn deps srcs gens env k alw) (rec_of w l) && negb (r_rerun (rec_of w l) || alw)).
+  { intros H; inversion H; discriminate. }
+  intros H; inversion H; subst. intros _.
+  unfold rec_of, set_rec; cbn [w_recs]. rewrite lookup_update_same. repeat split.
+Qed.
+Print Assumptions failed_body_reruns.
+
+(** the records stay loadable: every record file is renamed into place atomically (hypothesis on rename(2)), a killed
+    build therefore leaves old or new complete records plus inert temporaries, which the model counts in [w_stray] and gc
+    removes.  That the implementation's state after a kill at every hook point loads and converges is decided by the
+    harness (oracle "C03 ..." and the from-scratch comparison after the recovery build). *)
+
+Example killed_build_example :
+  (* a is executed and recorded, the process dies before c's record is written; the recovery build runs c again *)
+  let pr := [(1, Fn [] [10] [100] 1 7 false); (3, Fn [1] [] [101] 3 9 false); (10, Src 50)] in
+  let c := mkCfg false false [] false [] [] in
+  let killed := mkCfg false false [] true [1; 3] [10; 1] in
+  let h := [OSetProj pr; OSetFile 50 (Some (CLit 1)); OBuild killed 3] in
+  o_ran (build c (run_history h) 3) = [3] /\ w_stray (run_history h) = 1.
+Proof. vm_compute. repeat split. Qed.
